@@ -39,6 +39,10 @@ CLAIMS = {
    technique="runtime monitoring: reference identifier grammars vs NewUserID/NewRoomID/ParseAndValidateServerName on grammar-generated, single-edit and random strings; encoding/base64 as oracle for Base64Bytes; boundary-value enumeration of the event size limits on build and on receipt per version; exhaustive comparison of the room-version trait table (public getters + behavioural probes) with the specification table",
    text="Identifier parsers are observed on ~20k strings (valid by construction, one edit away from valid, arbitrary bytes) against independent grammars, including re-concatenation of the reported parts; base64 on every length 0-70 in both alphabets; each size limit at 254/255/256 units in bytes and code points with 1-4 byte runes and JSON at 65535-65537 bytes, on Build and on NewEventFromUntrustedJSON, for every registered version; and every cell of the 16x17 room-version table (exhaustive_subspace in the evidence). The table part is complete; the rest is sampled.",
    note=TB + "abstains on '+' in localparts, stand-alone length limits of room IDs / server names, unusual port spellings, v12 room-ID length, pseudo-ID senders, the v11 room_version clause of the create rules."),
+ "C20": dict(level="exploration", design="§4 C20",
+   technique="runtime monitoring: GenerateLoginToken/ValidateToken/GetUserFromToken observed on seeded issue tuples under cross-validation, ~45 byte-level and caveat-level alterations built with macaroon.v2 (holder-side appended caveats, re-minted tokens with chosen expiry / missing / duplicated / unknown caveats, other key), plus a real-time expiry monitor with one-sided regions",
+   text="Every issued token must validate for its own secret and user and reveal that user; every cross-validation and alteration must be refused. Expiry is decided two ways: tokens re-minted with a chosen absolute expiry (10 s ago, 1970, now, +1 h) when the genuine expiry caveat is in Unix seconds, and black-box polling of live tokens (1-3 s in quick; the 120 s default, 61 s and a 2 s token every 5 s for 130 s in thorough, so issue instants cover every second of the minute). If the expiry caveat is not absolute Unix seconds the quick tier extends its polling to 66 s.",
+   note=TB + "gopkg.in/macaroon.v2; wall clock used only in one-sided comparisons; abstains on byte edits that leave identifier, caveats and signature unchanged."),
 }
 NOT_YET = "check not built yet (work in progress; see DESIGN.md §4 for the planned monitor)"
 
